@@ -218,6 +218,26 @@ def check_maps(ctx, tu, info):
                     continue
                 if is_lifetime(f):
                     continue
+                # binding a local reference to the member (`Map & map = eventCallbackListMap;`) reads nothing: the uses of that
+                # reference are the accesses
+                pm = f.parent_map()
+                q = pm.get(n)
+                while q and f.nodes[q]['cls'] in ('ImplicitCastExpr', 'ParenExpr'):
+                    q = pm.get(q)
+                refvar = None
+                if q and f.nodes[q]['cls'] == 'DeclStmt':
+                    for v in f.nodes[q].get('decls', []):
+                        vt = tu.type(v['t'])
+                        if vt and vt.get('ref') and v.get('init') and n in ([v['init']] + f.descendants(v['init'])):
+                            refvar = v['id']
+                if refvar is not None:
+                    for m, om in f.nodes.items():
+                        if om['cls'] == 'DeclRefExpr' and (f.decl(m) or {}).get('id') == refvar:
+                            held = 'listenerMutex' in info.held_names(f, f.pos(m))
+                            ctx.ob('C03.L1', f, 'eventCallbackListMap is accessed with listenerMutex held', held,
+                                   detail='access at %s (through the local reference) without listenerMutex: a concurrent appendListener may rehash/rebalance the map' % f.nloc(m),
+                                   where=f.nloc(m), key_detail='map access')
+                    continue
                 held = 'listenerMutex' in info.held_names(f, f.pos(n))
                 ctx.ob('C03.L1', f, 'eventCallbackListMap is accessed with listenerMutex held', held,
                        detail='access at %s without listenerMutex: a concurrent appendListener may rehash/rebalance the map' % f.nloc(n),
